@@ -20,6 +20,7 @@ import (
 
 	"github.com/AdguardTeam/AdGuardHome/internal/aghnet"
 	"github.com/AdguardTeam/AdGuardHome/internal/client"
+	"github.com/AdguardTeam/AdGuardHome/internal/dhcpsvc"
 	"github.com/AdguardTeam/AdGuardHome/internal/filtering"
 	"github.com/AdguardTeam/AdGuardHome/internal/querylog"
 	"github.com/AdguardTeam/AdGuardHome/internal/stats"
@@ -57,6 +58,31 @@ func TestVerifC08Pkg(t *testing.T) {
 	}
 }
 
+// c08PkgDHCP is a lease table with one lease.
+type c08PkgDHCP struct{}
+
+func (c08PkgDHCP) Leases() (leases []*dhcpsvc.Lease) {
+	hw, _ := net.ParseMAC("aa:bb:cc:00:00:09")
+
+	return []*dhcpsvc.Lease{{IP: netip.MustParseAddr("10.55.0.9"), HWAddr: hw, Hostname: "leased-host", IsStatic: true}}
+}
+
+func (c08PkgDHCP) HostByIP(ip netip.Addr) (host string) {
+	if ip == netip.MustParseAddr("10.55.0.9") {
+		return "leased-host"
+	}
+
+	return ""
+}
+
+func (c08PkgDHCP) MACByIP(ip netip.Addr) (mac net.HardwareAddr) {
+	if ip == netip.MustParseAddr("10.55.0.9") {
+		mac, _ = net.ParseMAC("aa:bb:cc:00:00:09")
+	}
+
+	return mac
+}
+
 type c08PkgReq struct {
 	Label    string `json:"label"`
 	Name     string `json:"name"`
@@ -85,6 +111,7 @@ func c08PkgConfig(rep *verifkit.Report, ci int, seed int64) {
 		ip       string
 		cidr     string
 		cid      string
+		mac      string
 		ql, st   bool
 	}
 	clients := []cl{
@@ -94,6 +121,8 @@ func c08PkgConfig(rep *verifkit.Report, ci int, seed int64) {
 		{name: "v6cidr", cidr: "2001:db8:bb::/48", ql: true, st: true},
 		{name: "cid", cid: "hidden-" + tag, ql: true, st: true},
 		{name: "plain", ip: "10.1.2.50"},
+		// Identified only by the hardware address of a DHCP lease.
+		{name: "bymac", mac: "aa:bb:cc:00:00:09", ql: true, st: true},
 	}
 	var pcs []*client.Persistent
 	for _, c := range clients {
@@ -108,9 +137,23 @@ func c08PkgConfig(rep *verifkit.Report, ci int, seed int64) {
 		if c.cid != "" {
 			p.ClientIDs = []string{c.cid}
 		}
+		if c.mac != "" {
+			hw, _ := net.ParseMAC(c.mac)
+			p.MACs = []net.HardwareAddr{hw}
+		}
 		pcs = append(pcs, p)
 	}
-	st, err := client.NewStorage(ctx, &client.StorageConfig{Logger: slogutil.NewDiscardLogger(), Clock: timeutil.SystemClock{}, DHCP: client.EmptyDHCP{}, InitialClients: pcs})
+	// The lease table of a DHCP server (one lease); the run-time source of
+	// client information "dhcp" is switched on in half of the configurations -
+	// persistent clients identified by a hardware address are matched through
+	// the lease table either way.
+	runtimeDHCP := ci%4 < 2
+	if runtimeDHCP {
+		rep.Class("configurations_with_runtime_source_dhcp_on")
+	} else {
+		rep.Class("configurations_with_runtime_source_dhcp_off")
+	}
+	st, err := client.NewStorage(ctx, &client.StorageConfig{Logger: slogutil.NewDiscardLogger(), Clock: timeutil.SystemClock{}, DHCP: c08PkgDHCP{}, RuntimeSourceDHCP: runtimeDHCP, InitialClients: pcs})
 	if err != nil {
 		rep.Inconcl("storage: " + err.Error())
 
@@ -219,6 +262,7 @@ func c08PkgConfig(rep *verifkit.Report, ci int, seed int64) {
 		{"2001:db8:aa::7", "ipv6", "v6ip"}, {"2001:db8:bb:1::9", "ipv6", "v6cidr"},
 		{"10.1.2.50", "ipv4", "plain"}, {"::ffff:10.1.2.50", "ipv4-mapped", "plain"},
 		{"192.0.2.200", "ipv4", ""}, {"2001:db8:cc::1", "ipv6", ""}, {"::ffff:192.0.2.201", "ipv4-mapped", ""},
+		{"10.55.0.9", "ipv4-leased-to-mac-client", "bymac"}, {"10.55.0.9", "ipv4-leased-to-mac-client", "bymac"},
 	}
 	var reqs []*c08PkgReq
 	nReq := verifkit.Pick(60, 120)
